@@ -37,6 +37,10 @@ func genResult(rng *rand.Rand, id uint64, attack string, rich bool) vegeta.Resul
 		if rng.Intn(3) == 0 {
 			r.Body = []byte(pick())
 		}
+		if rng.Intn(12) == 0 { // longer than a 4 KiB read buffer
+			r.Body = make([]byte, 4500+rng.Intn(6000))
+			rng.Read(r.Body)
+		}
 		if rng.Intn(3) == 0 {
 			r.Headers = http.Header{"Content-Type": {"text/plain"}, "X-Multi": {"a", "b"}}
 		}
